@@ -42,6 +42,7 @@ CATALOG = {
             S("s-c06-freeform-plain", "c06_freeform", {"n": 9}, {"n": 12}, shards=6, functions=[GRAMMAR, FIND, REGEXES, TOKENS]),
             S("s-c06-freeform-structured", "c06_freeform", {"n": 8, "structured": True}, {"n": 11, "structured": True}, shards=8,
               functions=[GRAMMAR, FIND, REGEXES, TOKENS], timeout=1800),
+            S("s-c06-sequences", "c06_sequences", {"quick": True}, {"quick": False}, shards=4, functions=[GRAMMAR, FIND, TOKENS, DIRECTIVE]),
             S("s-c06-placement-structured", "c10_templates", {"structured": True, "quick": True}, {"structured": True, "quick": False}, shards=6),
             S("s-c06-placement-plain", "c10_templates", {"structured": False, "quick": True}, {"structured": False, "quick": False}, shards=6)],
     "C10": [S("s-c10-multi-config", "c10_multi_config", {}, shards=3),
@@ -71,6 +72,8 @@ CATALOG = {
 M_CATALOG = {
     "C04": [{"engine": "M", "name": "m-c04-dispatch", "functions": ["src/main.rs::main (MIR CFG: dispatch on Context.check_mode)"]},
             {"engine": "M", "name": "m-c04-no-mutating-calls", "functions": ["call graph of every function of the crate (MIR dump)"]}],
+    # however a run ends, the lock has to be written: a handler that ends the process itself takes that away
+    "C02": [{"engine": "M", "name": "m-c18-only-flag-handlers", "functions": ["src/main.rs::main (MIR: every call into signal_hook)"]}],
     "C16": [{"engine": "M", "name": "m-c16-defaults", "functions": ["src/config/context.rs::{default_use_cache, default_rust_structured, default_rust_extensions} (MIR) and the serde attributes of Config/RustConfig/Cache"]}],
     "C18": [{"engine": "M", "name": "m-c18-signals", "functions": ["src/main.rs::main (MIR: arguments of signal_hook::flag::register)"]},
             {"engine": "M", "name": "m-c18-only-flag-handlers", "functions": ["src/main.rs::main (MIR: every call into signal_hook)"]}],
